@@ -22,6 +22,26 @@ TEMP = {"half": 0.5, "one": 1.0, "two": 2.0}
 NSAMPLES = 24
 
 
+class _Hang(Exception):
+    pass
+
+
+def _bounded(fn, seconds=20.0):
+    """run fn() but give up after `seconds` (the call did not return: reported as a crash of that call)"""
+    import signal
+
+    def onalarm(signum, frame):
+        raise _Hang("did not return within %.0f s" % seconds)
+
+    old = signal.signal(signal.SIGALRM, onalarm)
+    signal.setitimer(signal.ITIMER_REAL, seconds)
+    try:
+        return fn()
+    finally:
+        signal.setitimer(signal.ITIMER_REAL, 0)
+        signal.signal(signal.SIGALRM, old)
+
+
 def ints(lp):
     x = torch.nan_to_num(lp.double().exp(), nan=-1.0)     # NaN (all -inf row) is logged as -1
     return [[int(round(v * 1e6)) for v in row] for row in x.tolist()]
@@ -53,13 +73,16 @@ def real_records(logits, mask, T, k, p, tanh, shift_c=None, models=None):
                 greedy[r] = DecodingStrategy.greedy(fin[r:r + 1], mask[r:r + 1])[0]
             except Exception as e:
                 crash[r] = "greedy:" + type(e).__name__ + ":" + str(e)[:40]
+    # DecodingStrategy.sampling re-samples in a `while` loop until no infeasible action is drawn: when (nearly) all
+    # probability mass sits on masked actions it never returns -- bounded by a watchdog and reported as a verdict
     try:
-        samples = DecodingStrategy.sampling(fin.repeat(NSAMPLES, 1), mask.repeat(NSAMPLES, 1)).view(NSAMPLES, B)
+        samples = _bounded(lambda: DecodingStrategy.sampling(fin.repeat(NSAMPLES, 1), mask.repeat(NSAMPLES, 1))).view(NSAMPLES, B)
     except Exception:
         samples = torch.zeros(NSAMPLES, B, dtype=torch.long)
         for r in range(B):
             try:
-                samples[:, r] = DecodingStrategy.sampling(fin[r:r + 1].repeat(NSAMPLES, 1), mask[r:r + 1].repeat(NSAMPLES, 1))
+                samples[:, r] = _bounded(lambda: DecodingStrategy.sampling(fin[r:r + 1].repeat(NSAMPLES, 1),
+                                                                           mask[r:r + 1].repeat(NSAMPLES, 1)), 3.0)
             except Exception as e:
                 crash[r] = crash[r] or ("sampling:" + type(e).__name__ + ":" + str(e)[:40])
     shift = None
